@@ -68,7 +68,8 @@ def mk_perm_case(tag, text, label, rnd, idx, kind, nrand, max_all):
     docs = [text]
     how = ['original']
     perms = []
-    if len(items) == 1 and items[0].is_module() and 2 <= len(items[0].children) <= max_all:
+    nperm_items = len(items[0].children) if (len(items) == 1 and items[0].is_module()) else len(items)
+    if 2 <= nperm_items <= max_all:
         perms = CG.all_top_permutations(items)[1:]
         docs += [CG.render_doc(p) for p in perms]
         how += ['all-top-permutations'] * len(perms)
@@ -110,6 +111,13 @@ def gen_cases(tier):
         add(c)
     for name, t in CG.HAND:
         add(mk_perm_case('hand:' + name, t, None, lib.rng('C11h' + name), 0, 'hand', nrand, max_all))
+    # forced sweep (both tiers): classes of seeded defects the random streams missed
+    for name, t in CG.SWEEP:
+        add(mk_perm_case('sweep:' + name, t, 'acyclic', lib.rng('C11s' + name), 0, 'sweep', 6, 5))
+    for i in range(2 if quick else 12):
+        rnd = lib.rng(f'C11shadow{i}')
+        t, names = CG.shadow_doc(rnd, ['User', 'Post', 'fmt'])
+        add(mk_perm_case(f'sweep:shadow{i}:' + '/'.join(names), t, 'acyclic', rnd, 0, 'sweep', 3, 0))
     for name, t in CG.CYCLIC:
         add(mk_perm_case(name, CG.wrap_default(t), 'cyclic', lib.rng('C11c' + name), 0, 'cyclic', 1, 4))
     for name, t in CG.ACYCLIC_LOOKALIKE:
@@ -421,7 +429,7 @@ def run(tier):
                 amism.append((i, json.dumps(want), json.dumps(got)))
 
     # ---- (4) determinism across PYTHONHASHSEED
-    pick = [c for c in cases if c['kind'] in ('generated', 'hand', 'lookalike', 'upstream')]
+    pick = [c for c in cases if c['kind'] in ('generated', 'hand', 'lookalike', 'upstream', 'sweep')]
     pick = pick[:: max(1, len(pick) // (14 if not thorough else 120))]
     pcases = [{'id': i, 'docs': c['docs'][:2], 'own': 0, 'digest': True, 'orders': True} for i, c in enumerate(pick)]
     seeds = ['0', '7', '12345'] + (['99', '424242'] if thorough else [])
